@@ -688,6 +688,7 @@ func (env *SpecEnv) call(x *SExpr) (sval, error) {
 		if err != nil {
 			return sval{}, err
 		}
+		declareBoundary(e.U)
 		return sval{app(SInt, "rune_count", s.t), types.Typ[types.Int]}, nil
 	case "heapfield":
 		// heapfield("pkg.Type.field"): the whole map object -> field value, for
@@ -850,6 +851,14 @@ func (env *SpecEnv) call(x *SExpr) (sval, error) {
 			}
 			return sval{app(SInt, "g.src", env.f.asInt(i.t)), types.Typ[types.Rune]}, nil
 		}
+	case "closed":
+		// ghost: the channel has been closed
+		ch, err := env.eval(args[0])
+		if err != nil {
+			return sval{}, err
+		}
+		e.famSort["Chan.closed"] = arraySort(SInt, SBool)
+		return sval{sel(e.family(env.cur, "Chan.closed", arraySort(SInt, SBool)), ch.t, SBool), types.Typ[types.Bool]}, nil
 	case "lockstate":
 		// the ghost state of all mutexes (for "leaves every mutex as it found it")
 		e.famSort["Mutex.locked"] = arraySort(SInt, SBool)
@@ -926,6 +935,17 @@ func (env *SpecEnv) call(x *SExpr) (sval, error) {
 			if lk, ok := env.f.siteLookups[args[0].Name]; ok {
 				sub.lookup = lk // source names denote their values at the site
 			}
+			return sub.eval(args[1])
+		}
+	case "after":
+		// after(NAME, expr): expr evaluated in the state just after the call at site NAME returned
+		if len(args) == 2 && args[0].Op == "ident" {
+			st, ok := env.f.siteAfter[args[0].Name]
+			if !ok {
+				return sval{}, fmt.Errorf("after: the call at site %s has not returned before this point", args[0].Name)
+			}
+			sub := *env
+			sub.cur = st
 			return sub.eval(args[1])
 		}
 	case "siteret":
@@ -1283,6 +1303,10 @@ func declareBoundary(u *Universe) {
 	u.declareFun("boundary", []Sort{SStr, SInt}, SBool)
 	u.axiom("(assert (forall ((s Str)) (! (boundary s 0) :pattern ((boundary s 0)))))", "boundary")
 	u.axiom("(assert (forall ((s Str) (p Int)) (! (=> (and (boundary s p) (<= 0 p) (< p (slen s))) (boundary s (+ p (width_at s p)))) :pattern ((width_at s p)))))", "boundary")
+	// characters of a prefix: none in the empty prefix, one more per character, all of them in the whole string
+	u.axiom("(assert (forall ((s Str)) (! (= (rune_count (ssub s 0 0)) 0) :pattern ((ssub s 0 0)))))", "rune_count")
+	u.axiom("(assert (forall ((s Str) (p Int)) (! (=> (and (boundary s p) (<= 0 p) (< p (slen s))) (= (rune_count (ssub s 0 (+ p (width_at s p)))) (+ (rune_count (ssub s 0 p)) 1))) :pattern ((rune_count (ssub s 0 p)) (width_at s p)))))", "rune_count")
+	u.axiom("(assert (forall ((s Str)) (! (= (rune_count (ssub s 0 (slen s))) (rune_count s)) :pattern ((rune_count s)))))", "rune_count")
 	u.axiom("(assert (forall ((s Str) (p Int) (q Int)) (! (=> (and (boundary s p) (< p q) (< q (+ p (width_at s p)))) (not (boundary s q))) :pattern ((boundary s q) (width_at s p)))))", "boundary")
 }
 
